@@ -302,6 +302,9 @@ def _trim(s, n=1500):
     return s if len(s) <= n else s[:n] + " ..."
 
 
+BOOST_SAMPLES = 24
+
+
 def _worker(args):
     propid, oname, iname, case, tier, seed, known_w, mode, values = args
     t0 = time.time()
@@ -316,6 +319,22 @@ def _worker(args):
             out["verdict"] = "replayed"
             return out
         nsamp = obl.samples[0 if tier == "quick" else 1]
+        if mode == "boost":
+            # the proof became undecided on this tree: compensate with a larger bounded stand-in (fresh process, uninstrumented code)
+            conc = []
+            for k in range(BOOST_SAMPLES):
+                r = _run_conc(obl, case, None, seed * 7919 + (k + 17) * 15485863 + hash(iname) % 1000003, tier)
+                conc.append(r)
+                if r["status"] in ("fail", "raised"):
+                    break
+            out["conc"] = conc
+            bad = [r for r in conc if r["status"] in ("fail", "raised")]
+            if bad:
+                out.update(verdict="conc-fail", failed=bad[0].get("failed", []), values=bad[0]["inputs"],
+                           exc=bad[0].get("exc"), tb=bad[0].get("tb"), witnesses=bad[0].get("witnesses", {}))
+            else:
+                out["verdict"] = "boost-pass"
+            return out
         # 1. concrete companion on the real, uninstrumented code (also the whole of a B obligation)
         conc = []
         for k in range(nsamp):
@@ -535,6 +554,28 @@ def _report(prop, tier, seed, obls, results, known, t_start, write_baseline, onl
             downgraded.append(inst)
         else:
             still_undecided.append(r)
+    if downgraded:
+        # an obligation that was proved on the baseline is undecided here: run a larger bounded stand-in before accepting the downgrade
+        by_inst = {r["instance"]: r for r in undecided}
+        btasks = []
+        for inst in downgraded:
+            r = by_inst[inst]
+            case = {k: (tuple(v) if isinstance(v, list) else v) for k, v in r["case"].items()}
+            btasks.append((prop, r["obligation"], inst, case, tier, seed, [k["witness"] for k in _known_for(inst, known)], "boost", None))
+        with mp.get_context("fork").Pool(processes=min(16, len(btasks)), maxtasksperchild=1) as pool:
+            bres = pool.map(_worker, btasks, chunksize=1)
+        for br in bres:
+            if br.get("verdict") == "conc-fail":
+                wit = br.get("witnesses", {})
+                kf = _known_for(br["instance"], known)
+                if any(k["witness"] == "*" or wit.get(k["witness"]) for k in kf):
+                    continue
+                downgraded.remove(br["instance"])
+                br["solver_output"] = by_inst[br["instance"]].get("reason", "")
+                p = _write_replay(prop, br, "proof undecided on this tree; the enlarged bounded stand-in found a failing input on the real uninstrumented code", True)
+                violations.append((br["instance"], p, ""))
+            elif br.get("verdict") == "crash":
+                crashes.append(br)
     # vacuity: obligation instance count must match the baseline
     vac_msg = None
     if base_prop and not only:
